@@ -324,6 +324,7 @@ def still_fails(c, by_model=False):
 
 
 KEY_END_SEMI = "append-end-before-semicolon:local_a=1;"
+KEY_METHOD_SELF = "method-definition-self-param:multi-line-parameters"
 KEY_ELSEIF_TRUE = "unused-if-branch-constant-elseif:else-token-line"
 
 CONSTANT_WORDS = {b"true", b"false", b"nil", b"not", b"and", b"or"}
@@ -367,7 +368,34 @@ def classify_problem(c, s, out):
     names = [x if isinstance(x, str) else x.get("rule") for x in rules] if "rules" in c else DEFAULT_RULES
     if "remove_unused_if_branch" in names and has_constant_elseif(s):
         return KEY_ELSEIF_TRUE
+    if "remove_method_definition" in names and method_with_multiline_parameters(s) and not (
+            "remove_spaces" in names and names.index("remove_spaces") < names.index("remove_method_definition")):
+        return KEY_METHOD_SELF
     return None
+
+
+def method_with_multiline_parameters(src):
+    """`function a.b:c(` ... `)` with a line break between the parentheses and at least one parameter"""
+    try:
+        toks, _ = L.lex(src.encode("utf-8"))
+    except L.LexError:
+        return False
+    for i, t in enumerate(toks):
+        if t.text == b"function" and i + 1 < len(toks) and toks[i + 1].kind == "name":
+            j = i + 1
+            method = False
+            while j < len(toks) and toks[j].text != b"(":
+                if toks[j].text == b":":
+                    method = True
+                j += 1
+            if not method or j >= len(toks):
+                continue
+            k = j
+            while k < len(toks) and toks[k].text != b")":
+                k += 1
+            if k < len(toks) and k > j + 1 and toks[k].line > toks[j].line:
+                return True
+    return False
 
 
 def replay(ctx, path):
